@@ -127,6 +127,26 @@ let handle (x : sexp) : (string * string) list =
     let gone = ref [] in
     let specfails = ref [] in
     let add_spec s = if not (List.mem s !specfails) then specfails := s :: !specfails in
+    (* pass 1: the implementation's log, independent of the model *)
+    List.iter (function
+        | L [_; status; L (A "obs" :: obs); _] ->
+          List.iter (function
+              | L (A "w" :: A s :: A kind :: A e :: rest) ->
+                let s = int_of_string s and e = int_of_string e in
+                impl_log := OW (ni s, wcall_of kind e) :: !impl_log;
+                if rest <> [] then add_spec (Printf.sprintf "C12:no_write_after_completed (w %d %s) after the subscriber was gone" s kind)
+              | L [A "gone"; A s] -> let s = int_of_string s in
+                if not (List.mem s !gone) then (gone := s :: !gone; impl_log := OClosed (ni s) :: !impl_log)
+              | L [A "start"; A s; A k] -> impl_log := OStart (ni (int_of_string s), ni (int_of_string k)) :: !impl_log
+              | L [A "cancel"; A s] -> impl_log := OCancel (ni (int_of_string s)) :: !impl_log
+              | L [A "subinc"; A n] -> impl_log := OSubInc (ni (int_of_string n)) :: !impl_log
+              | L [A "subdec"; A n] -> impl_log := OSubDec (ni (int_of_string n)) :: !impl_log
+              | L [A "triginc"; A n] -> impl_log := OTrigInc (ni (int_of_string n)) :: !impl_log
+              | L [A "trigdec"; A n] -> impl_log := OTrigDec (ni (int_of_string n)) :: !impl_log
+              | L (A "panic" :: _) as p -> add_spec ("C12:completed_once panic in actor: " ^ print_sexp p)
+              | _ -> ()) obs;
+          if parse_status status = Panic then add_spec "C12:completed_once actor panicked"
+        | _ -> ()) steps;
     let known = ref ["hb"] in
     let alts = ref [init] in
     let result = ref [] in
@@ -150,28 +170,16 @@ let handle (x : sexp) : (string * string) list =
           prev := Some (name, istatus, is_start);
           if not (List.mem name !known) then known := name :: !known;
           let th = match tname_of name with Some t -> t | None -> raise (Failure ("corr:C12/trace unknown actor " ^ name)) in
-          (* implementation observables of this step *)
+          (* implementation observables of this step (for the comparison) *)
           let iobs_cmp = ref [] in
           List.iter (function
-              | L (A "w" :: A s :: A kind :: A e :: rest) ->
+              | L (A "w" :: A s :: A kind :: A e :: _) ->
                 let s = int_of_string s and e = int_of_string e in
-                let c = wcall_of kind e in
-                impl_log := OW (ni s, c) :: !impl_log;
-                if rest <> [] then add_spec (Printf.sprintf "C12:no_write_after_completed (w %d %s) after the subscriber was gone" s kind);
-                iobs_cmp := (`W (s, wcall_str c)) :: !iobs_cmp
-              | L [A "gone"; A s] -> let s = int_of_string s in
-                if not (List.mem s !gone) then (gone := s :: !gone; impl_log := OClosed (ni s) :: !impl_log)
-              | L [A "start"; A s; A k] -> let s = int_of_string s and k = int_of_string k in
-                impl_log := OStart (ni s, ni k) :: !impl_log; iobs_cmp := (`Start (s, k)) :: !iobs_cmp
-              | L [A "cancel"; A s] -> let s = int_of_string s in
-                impl_log := OCancel (ni s) :: !impl_log; iobs_cmp := (`Cancel s) :: !iobs_cmp
-              | L [A "subinc"; A n] -> impl_log := OSubInc (ni (int_of_string n)) :: !impl_log; iobs_cmp := (`S ("(subinc " ^ n ^ ")")) :: !iobs_cmp
-              | L [A "subdec"; A n] -> impl_log := OSubDec (ni (int_of_string n)) :: !impl_log; iobs_cmp := (`S ("(subdec " ^ n ^ ")")) :: !iobs_cmp
-              | L [A "triginc"; A n] -> impl_log := OTrigInc (ni (int_of_string n)) :: !impl_log; iobs_cmp := (`S ("(triginc " ^ n ^ ")")) :: !iobs_cmp
-              | L [A "trigdec"; A n] -> impl_log := OTrigDec (ni (int_of_string n)) :: !impl_log; iobs_cmp := (`S ("(trigdec " ^ n ^ ")")) :: !iobs_cmp
-              | L (A "panic" :: _) as p -> add_spec ("C12:completed_once panic in actor: " ^ print_sexp p)
+                iobs_cmp := (`W (s, wcall_str (wcall_of kind e))) :: !iobs_cmp
+              | L [A "start"; A s; A k] -> iobs_cmp := (`Start (int_of_string s, int_of_string k)) :: !iobs_cmp
+              | L [A "cancel"; A s] -> iobs_cmp := (`Cancel (int_of_string s)) :: !iobs_cmp
+              | L [A ("subinc" | "subdec" | "triginc" | "trigdec" as k); A n] -> iobs_cmp := (`S ("(" ^ k ^ " " ^ n ^ ")")) :: !iobs_cmp
               | _ -> ()) obs;
-          if istatus = Panic then add_spec "C12:completed_once actor panicked";
           let impl_strings (st : state) =
             List.sort compare (List.map (function
                 | `W (s, c) -> Printf.sprintf "(w %d %s)" s c
